@@ -1173,3 +1173,15 @@ MUTANTS += [
  dict(name='c02-legendre-zero-reported-as-nonresidue', prop='C02', expect='legendre',
       edits=[('include/core/fp.hpp', '            if (tmp.is_zero()) {\n                return 0;\n            } else if (tmp.is_one()) {', '            if (tmp.is_zero()) {\n                return -1;\n            } else if (tmp.is_one()) {')]),
 ]
+# ---- round 10 related mutants
+MUTANTS += [
+ dict(name='c05-multiply2-identity-shortcut-no-copy', prop='C05', expect='R-DEFOUT/curve',
+      edits=[('include/bls12_381/curve.hpp', """            if (other.is_zero()) {
+                this->copy(other);
+                return;
+            }""", """            if (other.is_zero()) {
+                return;
+            }""")]),
+ dict(name='c20-mutable-cursor-in-g2prepared', prop='C20', expect='R-EFFECT/const',
+      edits=[('include/bls12_381/pairing.hpp', 'bool infinity;\n', 'bool infinity;\n        mutable unsigned char scratch_pos;\n')], count=1),
+]
